@@ -85,6 +85,16 @@ def fat32Case (args : List String) : String :=
 def ext4BootCase (_args : List String) : String :=
   s!"clear={if Generated.Detect.ext4CreateClearsBootArea then 1 else 0}"
 
+/-- detect.table gpt=<gpt.Read accepts> mbr=<mbr.Read accepts> legacy=<sector 0 is a legacy MBR> → table=gpt|mbr|none -/
+def tableCase (args : List String) : String :=
+  let order : List TableKind :=
+    Generated.Detect.tableProbeOrder.filterMap fun s => if s == "gpt" then some .gpt else if s == "mbr" then some .mbr else none
+  match tableProbeL Generated.Detect.tableReadChecksLegacyMBR (argNatD args "gpt" 0 == 1) (argNatD args "mbr" 0 == 1)
+      (argNatD args "legacy" 0 == 1) order with
+  | some .gpt => "table=gpt"
+  | some .mbr => "table=mbr"
+  | none => "table=none"
+
 end Driver.Detect
 
 def main : IO Unit := Driver.runLoop fun op args =>
@@ -93,4 +103,5 @@ def main : IO Unit := Driver.runLoop fun op args =>
   | "detect.boot" => Driver.Detect.bootCase args
   | "detect.ext4boot" => Driver.Detect.ext4BootCase args
   | "detect.fat32" => Driver.Detect.fat32Case args
+  | "detect.table" => Driver.Detect.tableCase args
   | _ => "unknown-op"
